@@ -10,7 +10,7 @@
 // process. Files: spec.go (type grammar, features, tag classes, tree edits), gen.go (stage-1 corpus,
 // stage-2 generator), populate.go (values inside / outside the tag zones, names oracle), eval.go
 // (pipeline, fresh-process regeneration), collide.go (stage 2d: several fields at different embedding depths
-// claiming one JSON name), marshal.go (stage 2m: types with MarshalJSON / MarshalText methods), history.go (stage 3), child.go / bind.go (child roles),
+// claiming one JSON name), marshal.go (stage 2m: types with MarshalJSON / MarshalText methods), tags.go (stage 2t: json tag syntax x field kinds), history.go (stage 3), child.go / bind.go (child roles),
 // oracle.go + oracle.py (reference oracle), corpus/ (compiled types).
 package main
 
@@ -445,6 +445,10 @@ func main() {
 	runMarshalers(r, ev, sampled)
 	phase("marshalers-evaluated")
 
+	// ------------------------------------------------------------------ stage 2t: json tag syntax x kinds (tags.go)
+	runTagShapes(r, ev, sampled)
+	phase("tag-shapes-evaluated")
+
 	// ------------------------------------------------------------------ batch verdicts a fresh process did not reproduce
 	reportBatch := func() {
 		ev.histMu.Lock()
@@ -598,6 +602,14 @@ func main() {
 		"for all) omitempty, slice of pointers, array, pointer to array, map of pointers / slices, nested struct by value / through a pointer, used twice, ',string' (primitive kinds), map KEY (integer / string kinds and TextMarshaler keys) x 4 option sets; "+
 		"plus seeded mixes (quick 60 / thorough 1200 structs of 2-5 family types below seeded wrapper chains next to a recursive compiled type; a failing mix is attributed by judging each field alone). The instances are json.Marshal of the populated value, by value and, where that "+
 		"gives another text, through a pointer; distinct by (style, implementation, receiver, JSON form, underlying kind, position). "+
+		"stage 2t (json tag syntax): about 420 tag shapes written verbatim into reflect.StructOf fields - option lists in every order with omitempty / omitzero (unknown to go 1.23) / unknown / repeated / empty options, options that only look like "+
+		"',string' (leading or trailing space, other letter case, longer words, other separators) alone and next to the real one, names that are empty with options, '-', '-,' and other names every field shares, names encoding/json accepts "+
+		"(spaces, non-ASCII letters and digits, each punctuation character of its list) and rejects (quotes, backslash, backquote, control characters, symbols, combining marks: the field goes by its Go name, options still apply), other keys "+
+		"before / after the json key, repeated json keys, separators, malformed tag strings - plus seeded random (name, option list, surrounding keys) shapes (quick 150 / thorough 1000) x 68 field types: the kinds ',string' applies to "+
+		"(string, 10 integer kinds, 2 float kinds, bool, named types of these kinds, json.Number, unnamed pointers to them) and kinds where encoding/json ignores it (struct, slice, array, map, interface{}, []byte, time.Time, "+
+		"json.RawMessage, pointer to pointer, named pointer types, json.Marshaler and TextMarshaler types of primitive kinds, pointers to those, an embedded struct / embedded pointer to struct carrying the tag) x 4 option sets; the two option families meet every kind, the others a third of the kinds "+
+		"in the quick tier (rotating with the seed; thorough: all), fields are grouped 9 (thorough 4) to a struct with distinct names and a failing group is attributed by judging each field alone; names and instance are "+
+		"json.Marshal of the populated value; what encoding/json did with a cell (name from the tag / Go name / dropped, value quoted) is observed and counted; distinct by (style, tag shape, field type). "+
 		"stage 3 (history): per session a seeded pool of types sharing field kinds (tagged / untagged / below a wrapper / sibling), two unnamed nested struct types and compiled recursive types (tagged and untagged "+
 		"struct-typed fields, roots) plus random compositions; ONE child process generates every (type, style) of the pool 2 (thorough 3) times in seeded random order (A, B, A again, ...), a second child generates them "+
 		"concurrently from 4 (8) goroutines; every document is compared, as JSON with $defs names up to renaming, with the document of a fresh process that generated only that (type, style); a document that "+
@@ -620,6 +632,8 @@ func main() {
 			"custom marshalling: encoding/json calls a pointer-receiver MarshalJSON / MarshalText only on an addressable value, so a type with such a method held BY VALUE (field, array element, nested struct, map value) has two encodings, depending on whether the caller " +
 				"marshals the root by value or through a pointer (a map value is never addressable, although decoding always is): the text written through a pointer is judged, the by-value text is only counted (marshal_by_value_text_of_pointer_receiver_type_rejected); " +
 				"a struct that embeds a marshaler is judged as a field type, not as the root (the root of tool arguments is a JSON object by protocol)",
+			"tag syntax: the harness never parses a tag for the verdict - reflect.StructTag / encoding/json decide what the name is and whether the value is quoted; the go toolchain in use decides whether omitzero is an option; " +
+				"a failing cell is reported with at most three witnesses per (style, family, shape, check), the note lists the field types",
 			"random compositions, random collision arrangements and history orders are sampled, not enumerated",
 		})
 }
